@@ -66,9 +66,10 @@ Definition vrow := (Z * bool * option phase)%type.  (* (position, genotype homoz
 Definition info := list (Z * phase).                (* vpos_to_phase_info *)
 
 Record read := mkRead {
-  r_name : Z;                     (* interned read name *)
+  r_name : Z;                     (* interned (sample key, read name): the key under which the tool files the decision —
+                                     the read set's sample, or nothing with --ignore-read-groups *)
   r_start : Z;                    (* reference_start *)
-  r_bx : option Z;                (* interned non-empty BX tag *)
+  r_bx : option Z;                (* interned (sample key, non-empty BX tag) *)
   r_vars : list (Z * Z * Z)       (* (position, allele, quality) *)
 }.
 
@@ -77,7 +78,7 @@ Definition no_tags : tags3 := (None, None, None).
 
 Record aln := mkAln {
   a_id : Z;                       (* interned content of the record without HP/PS/PC *)
-  a_name : Z;
+  a_name : Z;                     (* interned (sample of the record's read group | none, query name) *)
   a_start : Z;                    (* reference_start *)
   a_end : Z;                      (* bam_endpos *)
   a_unmapped : bool;
